@@ -517,6 +517,25 @@ impl Sim {
         for t in &m.tokens {
             roles.push(t.clone());
         }
+        // look-alike addresses: extensions and truncations of the privileged addresses
+        // (catches prefix / substring comparisons of the caller)
+        let mut privileged = vec![m.owner.clone(), m.factory.clone(), m.router.clone()];
+        for p in m.pairs.iter().take(2) {
+            privileged.push(p.lp.clone());
+            for a in p.infos.iter() {
+                if let AssetInfo::Token { contract_addr } = a {
+                    privileged.push(contract_addr.clone());
+                }
+            }
+        }
+        for a in privileged {
+            roles.push(format!("{}0", a));
+            roles.push(format!("{}x", a));
+            if a.len() > 3 {
+                roles.push(a[..a.len() - 1].to_string());
+            }
+        }
+        roles.sort();
         roles.dedup();
         // ---- messages: (target, json, must_succeed_for_authorised)
         let mut msgs: Vec<(String, String, bool)> = vec![];
